@@ -1,6 +1,8 @@
 import EdzedModel.Basic.Val
 import EdzedModel.Counter
 import EdzedModel.Drv.Counter
+import EdzedModel.Drv.Persist
 import EdzedModel.Drv.Simulate
 import EdzedModel.Gen.Constants
+import EdzedModel.Persist
 import EdzedModel.Simulate
